@@ -199,7 +199,7 @@ def cmd_setup(args):
     for d, dn, fn in os.walk(SPEC):
         for f in sorted(fn):
             if f.endswith(".tla"):
-                rc, out = run(["java", "-cp", tlc.TLA_CP, "tla2sany.SANY", f], cwd=d, timeout=120)
+                rc, out = run(["java", "-Djava.io.tmpdir=" + WORK, "-cp", tlc.TLA_CP, "tla2sany.SANY", f], cwd=d, timeout=120)
                 if rc != 0 or "error" in out.lower().replace("0 error", ""):
                     log("[sany] %s FAILED\n%s" % (f, out[-1500:]))
                     bad += 1
